@@ -324,10 +324,12 @@ def execute(case, ctx):
         faults["crash_restart"][1] += 1
         open(rpath, "wb").write(img)
         rb.wlog_start()
+        rb.alloc_fill((0x00, 0xFF, 0x5A, 0xCB)[(depth + len(img)) % 4])      # the restarted process finds other garbage in its fresh heap memory than the crashed one
         with rb.quiet() as q:
             s = rebound.Simulation(rpath)
             simgen.attach_callbacks(rebound, rb, s, cfg)
             run_driver(rebound, s, drv, rpath, n)
+        rb.alloc_fill(0xCB)
         ev2 = rb.wlog_take()
         if any("attempt to fix" in m for m in q.messages):
             probe("repair_path_taken")
